@@ -864,6 +864,8 @@ var ColorNames = map[string]Color{
 	"blue":                 ColorBlue,
 	"fuchsia":              ColorFuchsia,
 	"aqua":                 ColorAqua,
+	"cyan":                 ColorAqua,
+	"magenta":              ColorFuchsia,
 	"white":                ColorWhite,
 	"aliceblue":            ColorAliceBlue,
 	"antiquewhite":         ColorAntiqueWhite,
